@@ -58,6 +58,9 @@ func c13Run(x *mc.Exec, order bool) {
 		// the same id listed twice; identifiers without id
 		{`{"data":[{"type":"u","id":"a"},{"type":"u","id":"b"},{"type":"u","id":"a"}]}`, true},
 		{`{"data":[{"type":"u"},{"type":"u"}]}`, true},
+		// identifiers naming another type than the relationship's target (single and in a list)
+		{`{"data":{"type":"t","id":"a"}}`, true},
+		{`{"data":[{"type":"u","id":"a"},{"type":"nope","id":"b"}]}`, true},
 	}
 	var rparts []string
 	relsWithData := []string{}
@@ -322,7 +325,7 @@ func c13Framing(x *mc.Exec) {
 func init() {
 	Register(&Prop{
 		ID: "C13",
-		Rule: "Engine A, all choices Full, complete product: {soft,struct-backed} x 3 attributes each in {absent, valid, explicit null, wrong kind} x 2 relationships each in 12 forms x a second to-one relationship in 4 forms, plus a reduced product (1 attribute) with the partial call under every iteration order of one member map (deviation bound 1) (absent, {}, links only, meta only, data:null, identifier, data:[], list of 2, wrong kind, data+links, repeated id, identifiers without id) x {plain, unknown attribute, unknown relationship with/without data, unknown type, relationship member named after an attribute (3 forms), attribute member named after a relationship}. plus two schemas declaring a same-named type with the same field names and different definitions (4 x 4 kinds, both cardinalities, soft/struct), used alternately. plus framing: 18 cores (valid, repeated members, missing id/type, null/array/string/number/empty, null or ill-shaped attributes/relationships members) x 7 leading x 13 trailing byte strings (whitespace, BOM, NUL, second value, stray bracket, comment) x 3 truncations. Oracle: partial accepts iff full accepts; on acceptance Attrs()/Rels() = names present / names with a data member, definitions = schema's, values = full unmarshaling's, every other schema field reads nil. Non-trivial = accepted payload with a proper, non-empty subset of the fields",
+		Rule: "Engine A, all choices Full, complete product: {soft,struct-backed} x 3 attributes each in {absent, valid, explicit null, wrong kind} x 2 relationships each in 14 forms x a second to-one relationship in 4 forms, plus a reduced product (1 attribute) with the partial call under every iteration order of one member map (deviation bound 1) (absent, {}, links only, meta only, data:null, identifier, data:[], list of 2, wrong kind, data+links, repeated id, identifiers without id, identifiers of another type) x {plain, unknown attribute, unknown relationship with/without data, unknown type, relationship member named after an attribute (3 forms), attribute member named after a relationship}. plus two schemas declaring a same-named type with the same field names and different definitions (4 x 4 kinds, both cardinalities, soft/struct), used alternately. plus framing: 18 cores (valid, repeated members, missing id/type, null/array/string/number/empty, null or ill-shaped attributes/relationships members) x 7 leading x 13 trailing byte strings (whitespace, BOM, NUL, second value, stray bracket, comment) x 3 truncations. Oracle: partial accepts iff full accepts; on acceptance Attrs()/Rels() = names present / names with a data member, definitions = schema's, values = full unmarshaling's, every other schema field reads nil. Non-trivial = accepted payload with a proper, non-empty subset of the fields",
 		Harnesses: []Harness{{Name: "C13/payload", Body: c13Body}, {Name: "C13/member-order", Body: c13Order, Dev: func() int { return 1 }}, {Name: "C13/two-schemas", Body: c13TwoSchemas}, {Name: "C13/framing", Body: c13Framing}},
 	})
 }
